@@ -268,6 +268,6 @@ HostCall(y, op, a1, a2) ==
       [] op = "MMIORead"      -> [y |-> ApbpReadEffect(HostMmio(y, a1 % 2048), a1 % 2048), ret |-> MmioRead(y, a1 % 2048)]
 
 SysReset(y) ==       \* Teakra::Impl::Reset: memory zeroed, MIU, APBP, timers, AHBM, DMA, BTDMP, processor registers
-    [y EXCEPT !.c.mem = [ph \in {} |-> 0], !.c.io = EmptyIo, !.c.miu = MiuReset, !.tm = <<TM!ResetState, TM!ResetState>>,
+    [y EXCEPT !.c.mem = [ph \in {} |-> 0], !.c.io = EmptyIo, !.c.miu = MiuLive, !.tm = <<TM!ResetState, TM!ResetState>>,
               !.bt = <<BT!ResetState, BT!ResetState>>, !.ap = ApReset]
 =============================================================================
